@@ -199,6 +199,22 @@ Fixpoint inherited_attrs (fuel : nat) (s : schema) (t : table) : list string :=
            end
   end.
 
+(* relationship names of the tables above t: SQLAlchemy refuses a column of t that is named like one of them *)
+Fixpoint inherited_rels (fuel : nat) (s : schema) (t : table) : list string :=
+  match fuel with
+  | O => []
+  | S k => match t_base t with
+           | None => []
+           | Some b => match find (fun u => String.eqb (t_name u) b) (s_tables s) with
+                       | Some u => map rel_name (t_rels u) ++ inherited_rels k s u
+                       | None => []
+                       end
+           end
+  end.
+Definition wf_no_inherited_rel_clash (s : schema) : bool :=
+  forallb (fun t => negb (existsb (fun n => str_in n (inherited_rels (S (List.length (s_tables s))) s t))
+                                  (map col_name (t_builtin t ++ t_custom t) ++ map fk_name (t_fks t)))) (s_tables s).
+
 Inductive attr := AtPk | AtCol (c : column) | AtFk (k : fkcol) | AtRel (r : rel).
 Definition attrs_of (t : table) : list (string * attr) :=
   [(t_pk t, AtPk)] ++ map (fun c => (col_name c, AtCol c)) (t_builtin t ++ t_custom t)
@@ -272,7 +288,8 @@ Definition pk_survives (t : table) : bool :=
 (* import / configure_mappers / create_all go through *)
 Definition accepts (s : schema) : bool :=
   negb (s_error s) && wf_attrs_not_reserved s && wf_table_names_unique s && wf_fk_targets s
-  && wf_assoc_columns s && wf_imports s && wf_bases_first [] (s_tables s) && forallb pk_survives (s_tables s).
+  && wf_assoc_columns s && wf_imports s && wf_bases_first [] (s_tables s) && forallb pk_survives (s_tables s)
+  && wf_no_inherited_rel_clash s.
 
 Definition unused_assoc (s : schema) : list sx :=
   flat_map (fun a => if existsb (fun t => existsb (fun na => match snd na with
@@ -304,4 +321,4 @@ Definition case_gen (M : cmodel) (names : list string) : sx := gen_sx (gen M (or
 Definition case_obs (M : cmodel) (names : list string) : sx := model_obs (gen M (order_of M names)).
 Definition case_spec (M : cmodel) : sx := spec_obs_r tablename o2m_association_table_name M.
 Definition case_info (M : cmodel) (names : list string) : sx :=
-  SL [SB (wfM M); SB (is_topo_b M (order_of M names)); SB (schema_wf (gen M (order_of M names)) || refused (gen M (order_of M names)))].
+  SL [SB (wfM M); SB (is_topo_b M (order_of M names)); SB ((schema_wf (gen M (order_of M names)) && wf_no_inherited_rel_clash (gen M (order_of M names))) || refused (gen M (order_of M names)))].
